@@ -869,3 +869,244 @@ grow_shrink_step!(grow_q_azd_n2, RAZD, [true, true, true], entity = (A, Z, D), n
 grow_shrink_step!(grow_t_dbwa_n1, RDBWA, [true, true, true, true], entity = (D, B, W, A), n = 1, cap = 1, additional = 2, s = 2, f = 1);
 grow_shrink_step!(grow_t_ab_n0, RAB, [true, true], entity = (A, B), n = 0, cap = 0, additional = 0, s = 0, f = 0);
 grow_shrink_step!(grow_t_ab_n0_cap3, RAB, [true, false], entity = (A), n = 0, cap = 3, additional = 1, s = 1, f = 1);
+
+// ------------------------------------------------------------------------------------------
+// Clone / clone_from at archetype level (C10 exactness + independence, C04 ledger)
+// ------------------------------------------------------------------------------------------
+
+/// Row equality by *value*: ledger columns compare the payload only (a clone is a different value
+/// with the same payload).
+fn rows_eq_val(a: &[u64; MAXC], b: &[u64; MAXC], ncols: usize, dm: &[bool; MAXC]) -> bool {
+    let mut eq = true;
+    let mut k = 0;
+    while k < MAXC {
+        if k < ncols {
+            let (x, y) = if dm[k] { (a[k] & 0xff, b[k] & 0xff) } else { (a[k], b[k]) };
+            if x != y {
+                eq = false;
+            }
+        }
+        k += 1;
+    }
+    eq
+}
+
+fn any_ids<const N: usize>() -> [entity::Identifier; N] {
+    let mut ids = [entity::Identifier::new(0, 0); N];
+    let mut r = 0;
+    while r < N {
+        ids[r] = entity::Identifier::new(kani::any(), kani::any());
+        r += 1;
+    }
+    ids
+}
+
+macro_rules! clone_step {
+    ($name:ident, $R:ty, [$($b:expr),*], n = $N:expr, cap = $CAP:expr) => {
+        #[kani::proof]
+        #[kani::unwind(18)]
+        pub fn $name() {
+            const N: usize = $N;
+            let bits = [$($b),*];
+            let ncols = popcount(&bits);
+            let mut dm = [false; MAXC];
+            <$R as Cols>::dmask(&bits, &mut dm, 0);
+            let ids = any_ids::<N>();
+            let src = any_archetype::<$R>(ident::<$R>(bits_to_bytes(&bits)), &bits, N, $CAP, &ids);
+            let sbefore = snap::<$R, N>(&src, &bits);
+            let minted_before = minted();
+
+            let mut cl = src.clone();
+
+            vassert!(arch_shape_ok(&cl, &bits, N), "clone has the source's shape");
+            let c = snap::<$R, N>(&cl, &bits);
+            let s = snap::<$R, N>(&src, &bits);
+            let mut r = 0;
+            while r < N {
+                vassert!(rows_eq_val(&c.rows[r], &sbefore.rows[r], ncols, &dm), "clone holds the source's values row by row");
+                vassert!(c.ids[r] == sbefore.ids[r], "clone holds the source's identifiers row by row");
+                vassert!(rows_eq(&s.rows[r], &sbefore.rows[r], ncols), "source untouched by clone()");
+                r += 1;
+            }
+            // identifier bytes equal, buffers distinct
+            {
+                let (ci, (cidp, _), ccols, _) = cl.verif_raw();
+                let (si, (sidp, _), scols, _) = src.verif_raw();
+                // SAFETY: both buffers are live.
+                vassert!(unsafe { ci.as_slice() == si.as_slice() }, "clone has the same component set");
+                vassert!(ci.verif_raw().0 != si.verif_raw().0, "clone owns its identifier buffer");
+                if N > 0 {
+                    vassert!(cidp != sidp, "clone owns its identifier column");
+                    let mut sizes = [0usize; MAXC];
+                    <$R as Cols>::sizes(&bits, &mut sizes, 0);
+                    let mut k = 0;
+                    while k < MAXC {
+                        if k < ncols && sizes[k] > 0 {
+                            vassert!(ccols[k].0 != scols[k].0, "clone owns its columns");
+                        }
+                        k += 1;
+                    }
+                }
+            }
+            // ledger: nothing dropped, one fresh value per cloned ledger cell
+            let mut i = 0;
+            while i < LEDGER_SIZE {
+                vassert!(ledger(i as u8) == 0, "clone() drops nothing");
+                i += 1;
+            }
+            let mut ndm = 0;
+            let mut k = 0;
+            while k < MAXC {
+                if k < ncols && dm[k] {
+                    ndm += 1;
+                }
+                k += 1;
+            }
+            vassert!(minted() as usize == minted_before as usize + ndm * N, "one independent value per cloned cell");
+            // independence: dropping the clone leaves the source intact and readable
+            drop(cl);
+            let s2 = snap::<$R, N>(&src, &bits);
+            let mut r = 0;
+            while r < N {
+                vassert!(rows_eq(&s2.rows[r], &sbefore.rows[r], ncols) && s2.ids[r] == sbefore.ids[r], "source intact after the clone is dropped");
+                r += 1;
+            }
+            let mut gone = [false; N];
+            let _ = &mut gone;
+            vassert!(ledger_rows(&sbefore, &dm, ncols, &gone), "dropping the clone drops none of the source's values");
+            drop(src);
+            vassert!(ledger_all_once(), "every value (originals and clones) dropped exactly once");
+            kani::cover!(true, "reached end");
+        }
+    };
+}
+
+clone_step!(clone_q_azd_n2, RAZD, [true, true, true], n = 2, cap = 3);
+clone_step!(clone_t_dbwa_n2, RDBWA, [true, true, true, true], n = 2, cap = 2);
+clone_step!(clone_t_ab_n0, RAB, [true, true], n = 0, cap = 0);
+clone_step!(clone_t_dbwa_sparse_n3, RDBWA, [true, false, false, true], n = 3, cap = 4);
+
+macro_rules! clone_from_step {
+    ($name:ident, $R:ty, [$($b:expr),*], dst = $ND:expr, dcap = $DCAP:expr, src = $NS:expr) => {
+        #[kani::proof]
+        #[kani::unwind(18)]
+        pub fn $name() {
+            const ND: usize = $ND;
+            const NS: usize = $NS;
+            const NM: usize = if ND > NS { ND } else { NS };
+            let bits = [$($b),*];
+            let ncols = popcount(&bits);
+            let mut dm = [false; MAXC];
+            <$R as Cols>::dmask(&bits, &mut dm, 0);
+            let dids = any_ids::<ND>();
+            let sids = any_ids::<NS>();
+            let mut dst = any_archetype::<$R>(ident::<$R>(bits_to_bytes(&bits)), &bits, ND, $DCAP, &dids);
+            let src = any_archetype::<$R>(ident::<$R>(bits_to_bytes(&bits)), &bits, NS, NS, &sids);
+            let dbefore = snap::<$R, NM>(&dst, &bits);
+            let sbefore = snap::<$R, NM>(&src, &bits);
+            let dst_ident_before = dst.verif_raw().0.verif_raw().0;
+
+            dst.clone_from(&src);
+
+            vassert!(arch_shape_ok(&dst, &bits, NS), "destination takes the source's row count");
+            vassert!(dst.verif_raw().0.verif_raw().0 == dst_ident_before, "destination keeps its own identifier buffer");
+            let d = snap::<$R, NM>(&dst, &bits);
+            let s = snap::<$R, NM>(&src, &bits);
+            let mut r = 0;
+            while r < NS {
+                vassert!(rows_eq_val(&d.rows[r], &sbefore.rows[r], ncols, &dm), "destination holds the source's values row by row");
+                vassert!(d.ids[r] == sbefore.ids[r], "destination holds the source's identifiers row by row");
+                vassert!(rows_eq(&s.rows[r], &sbefore.rows[r], ncols), "source untouched by clone_from()");
+                r += 1;
+            }
+            // ledger: everything the destination held before is dropped exactly once, nothing of the source
+            let gone_d = [true; NM];
+            let gone_s = [false; NM];
+            vassert!(ledger_rows(&dbefore, &dm, ncols, &gone_d), "every replaced destination value dropped exactly once");
+            vassert!(ledger_rows(&sbefore, &dm, ncols, &gone_s), "no source value dropped by clone_from()");
+            // the destination's new ledger cells are fresh values, not the source's
+            let mut k = 0;
+            while k < MAXC {
+                if k < ncols && dm[k] {
+                    let mut r = 0;
+                    while r < NS {
+                        vassert!(d.rows[r][k] != sbefore.rows[r][k], "cloned cells are independent values");
+                        vassert!(ledger(d_id_of_fp(d.rows[r][k])) == 0, "cloned cells are alive");
+                        r += 1;
+                    }
+                }
+                k += 1;
+            }
+            drop(src);
+            let d2 = snap::<$R, NM>(&dst, &bits);
+            let mut r = 0;
+            while r < NS {
+                vassert!(rows_eq(&d2.rows[r], &d.rows[r], ncols), "destination intact after the source is dropped");
+                r += 1;
+            }
+            drop(dst);
+            vassert!(ledger_all_once(), "every value (both sides, old and new) dropped exactly once");
+            kani::cover!(true, "reached end");
+        }
+    };
+}
+
+// destination longer / equal / shorter than the source; capacity sufficient and insufficient
+clone_from_step!(clonefrom_q_azd_d2_s1, RAZD, [true, true, true], dst = 2, dcap = 2, src = 1);
+clone_from_step!(clonefrom_q_azd_d1_s2_grow, RAZD, [true, true, true], dst = 1, dcap = 1, src = 2);
+clone_from_step!(clonefrom_t_dbwa_d2_s2, RDBWA, [true, true, true, true], dst = 2, dcap = 3, src = 2);
+clone_from_step!(clonefrom_t_azd_d2_s0, RAZD, [false, true, true], dst = 2, dcap = 2, src = 0);
+clone_from_step!(clonefrom_t_azd_d0_s2, RAZD, [true, false, true], dst = 0, dcap = 0, src = 2);
+clone_from_step!(clonefrom_t_dbwa_d3_s1, RDBWA, [true, true, false, false], dst = 3, dcap = 4, src = 1);
+
+// ------------------------------------------------------------------------------------------
+// component_eq (C16)
+// ------------------------------------------------------------------------------------------
+
+macro_rules! eq_step {
+    ($name:ident, $R:ty, [$($b:expr),*], na = $NA:expr, nb = $NB:expr) => {
+        #[kani::proof]
+        #[kani::unwind(18)]
+        pub fn $name() {
+            const NA: usize = $NA;
+            const NB: usize = $NB;
+            const NM: usize = if NA > NB { NA } else { NB };
+            let bits = [$($b),*];
+            let ncols = popcount(&bits);
+            let mut dm = [false; MAXC];
+            <$R as Cols>::dmask(&bits, &mut dm, 0);
+            let aids = any_ids::<NA>();
+            let bids = any_ids::<NB>();
+            let a = any_archetype::<$R>(ident::<$R>(bits_to_bytes(&bits)), &bits, NA, NA, &aids);
+            let b = any_archetype::<$R>(ident::<$R>(bits_to_bytes(&bits)), &bits, NB, NB + 1, &bids);
+            let sa = snap::<$R, NM>(&a, &bits);
+            let sb = snap::<$R, NM>(&b, &bits);
+            let mut model = NA == NB;
+            let mut r = 0;
+            while r < NM {
+                if r < NA && r < NB {
+                    if sa.ids[r] != sb.ids[r] || !rows_eq_val(&sa.rows[r], &sb.rows[r], ncols, &dm) {
+                        model = false;
+                    }
+                }
+                r += 1;
+            }
+            // SAFETY: both archetypes have the same identifier bytes.
+            let (ab, ba, aa) = unsafe { (a.component_eq(&b), b.component_eq(&a), a.component_eq(&a)) };
+            vassert!(ab == model, "component_eq is exactly row-wise equality of identifiers and values");
+            vassert!(ab == ba, "component_eq is symmetric");
+            vassert!(aa, "component_eq is reflexive");
+            kani::cover!(ab || NA != NB, "equal pair");
+            kani::cover!(!ab, "unequal pair");
+            kani::cover!(!ab && NA == NB && NA > 0 && sa.ids[0] == sb.ids[0] || NA != NB || NA == 0, "unequal by a value only");
+            core::mem::forget(a);
+            core::mem::forget(b);
+        }
+    };
+}
+
+eq_step!(eq_q_azd_2_2, RAZD, [true, true, true], na = 2, nb = 2);
+eq_step!(eq_q_ab_1_2, RAB, [true, true], na = 1, nb = 2);
+eq_step!(eq_t_dbwa_2_2, RDBWA, [true, true, true, true], na = 2, nb = 2);
+eq_step!(eq_t_dbwa_sparse_3_3, RDBWA, [false, true, false, true], na = 3, nb = 3);
+eq_step!(eq_t_empty_2_2, RAB, [false, false], na = 2, nb = 2);
